@@ -42,7 +42,7 @@ PROPS = {
                         "present in the generator's output at that commit is invisible to this property"],
     },
     "C03": {
-        "theorems": ["FinProto.Obl.C03_messages", "FinProto.Obl.C03_no_unrecognised_statement", "FinProto.Obl.C03_scalar", "FinProto.toE_le_eq_reverse_be", "FinProto.writeNums_ok", "FinProto.writeVstr_ok", "FinProto.writeFixeds_ok", "FinProto.writeVstrs_ok", "FinProto.writeNums_le_be", "FinProto.writeVstr_le_be", "FinProto.writeFixeds_le_be", "FinProto.writeVstrs_le_be"],
+        "theorems": ["FinProto.Obl.C03_prims", "FinProto.Obl.C03_messages", "FinProto.Obl.C03_no_unrecognised_statement", "FinProto.Obl.C03_scalar", "FinProto.toE_le_eq_reverse_be", "FinProto.writeNums_ok", "FinProto.writeVstr_ok", "FinProto.writeFixeds_ok", "FinProto.writeVstrs_ok", "FinProto.writeNums_le_be", "FinProto.writeNums_is", "FinProto.readNums_is", "FinProto.writeVstrs_is", "FinProto.readVstrs_is", "FinProto.writeFixeds_is", "FinProto.readFixeds_is", "FinProto.writeNums_mixed_differs", "FinProto.writeVstr_le_be", "FinProto.writeFixeds_le_be", "FinProto.writeVstrs_le_be"],
         "aspects": {**ENC_BYTES, **DEC_ALL},
         "rule": "every BE/LE primitive pair x prefix widths {1,2,4,8} x element kinds {u8..u64,i8..i64,f32,f64 and NAMED numeric types} x "
                 "values with counts >= 2 and lengths >= 256 (count 1 and palindromic values cannot see byte order); the LE bytes must be the BE "
@@ -90,7 +90,7 @@ PROPS = {
         "assumptions": ["a Go runtime abort that is not a panic (out-of-memory kill) is C10's subject"],
     },
     "C10": {
-        "theorems": ["FinProto.Obl.C10_widths", "FinProto.Obl.C10_elems", "FinProto.Obl.C10_projection", "FinProto.Obl.C10_request_local", "FinProto.Obl.C10_total_linear",
+        "theorems": ["FinProto.Obl.C10_prims", "FinProto.Obl.C10_widths", "FinProto.Obl.C10_elems", "FinProto.Obl.C10_projection", "FinProto.Obl.C10_request_local", "FinProto.Obl.C10_total_linear",
                      "FinProto.decTyC_fst", "FinProto.decTyC_maxReq", "FinProto.decTyC_alloc_linear"],
         "aspects": {**DEC_CLASS},
         "rule": "hostile short inputs (every length/count prefix of a valid encoding set to 0xFFFFFFFF/0x7FFFFFFF/0x04000000/0xFFF0/0x8000, "
@@ -112,7 +112,7 @@ PROPS = {
                 "digit-arithmetic aliases, trimmed/lower-cased) decoded four times through fresh and reused receivers.",
     },
     "C13": {
-        "theorems": ["FinProto.writeFixed_length", "FinProto.writeFixed_long", "FinProto.writeFixed_exact", "FinProto.writeFixed_short_left", "FinProto.writeFixed_short_right", "FinProto.trimL_spec", "FinProto.trimR_spec", "FinProto.readFixed_eq", "FinProto.trim_writeFixed", "FinProto.writeFixed_trim", "FinProto.writeFixeds_ok", "FinProto.readFixeds_writeFixeds"],
+        "theorems": ["FinProto.Obl.C13_prims", "FinProto.writeFixed_length", "FinProto.writeFixed_long", "FinProto.writeFixed_exact", "FinProto.writeFixed_short_left", "FinProto.writeFixed_short_right", "FinProto.trimL_spec", "FinProto.trimR_spec", "FinProto.readFixed_eq", "FinProto.trim_writeFixed", "FinProto.writeFixed_trim", "FinProto.writeFixeds_ok", "FinProto.readFixeds_writeFixeds"],
         "aspects": {**ENC_BYTES, **DEC_ALL},
         "rule": "N in 0..40 x pad bytes {space,'0',NUL,0xE9,0x80,0xFF,'A',0xC3,0xA9,random} x both sides x text generator (incl. multi-byte "
                 "runes); reads of arbitrary N-byte fields; exhaustive for N<=2 over strings of length <=2 (<=3 thorough) over {pad,'a',NUL,0xC3}.",
@@ -148,7 +148,7 @@ PROPS = {
                 "fields, multi-byte text in every text field, absent body with each registered and 8 unregistered keys; outcome class vs model.",
     },
     "C18": {
-        "theorems": ["FinProto.Obl.C18_no_unrecognised_statement", "FinProto.writeLen_ok", "FinProto.writeLen_err", "FinProto.writeVstr_err", "FinProto.writeList_err", "FinProto.writeNums_err", "FinProto.writeFixeds_err", "FinProto.writeVstrs_err", "FinProto.writeVstrs_err_elem", "FinProto.readVstr_writeVstr", "FinProto.readNums_writeNums", "FinProto.readFixeds_writeFixeds", "FinProto.readVstrs_writeVstrs"],
+        "theorems": ["FinProto.Obl.C18_prims", "FinProto.Obl.C18_no_unrecognised_statement", "FinProto.writeLen_ok", "FinProto.writeLen_err", "FinProto.writeVstr_err", "FinProto.writeList_err", "FinProto.writeNums_err", "FinProto.writeFixeds_err", "FinProto.writeVstrs_err", "FinProto.writeVstrs_err_elem", "FinProto.readVstr_writeVstr", "FinProto.readNums_writeNums", "FinProto.readFixeds_writeFixeds", "FinProto.readVstrs_writeVstrs"],
         "aspects": {**ENC_BYTES, **DEC_ALL},
         "rule": "every prefixed primitive x prefix widths {1,2} x lengths {max-1,max,max+1,max+2,2max+1,2max+2,max+4} x both byte orders x "
                 "element kinds {u8,u32,NamedU8,i16}; an over-long element inside a string list; every message field with an 8/16-bit prefix at "
@@ -201,6 +201,13 @@ def check_facts(pid, facts):
     def fn(name):
         return codec.get(name)
 
+    if pid in ("C03", "C10", "C13", "C18"):
+        # template translation of the primitives (the agreement itself is kernel-evaluated: Obl.gen_prims_agree); here only
+        # the report of which primitives were not recognised and are therefore judged by the correspondence alone
+        unk = sorted(n for n, d in facts.get("prim_defs", {}).items() if d in (".unknown", ".missing"))
+        out.append(("template-translated-primitives", None if unk else True,
+                    "%d of %d primitives recognised%s" % (len(facts.get("prim_defs", {})) - len(unk), len(facts.get("prim_defs", {})),
+                                                          "; unrecognised (left to the correspondence): " + ", ".join(unk) if unk else "")))
     if pid == "C02":
         want = {"bjse-trade-bin": "bse_trade_bin_v0.9.pdsl", "risk-bin": "risk_v0.1.0.pdsl", "sample-bin": "sample.pdsl",
                 "sse-bin": "sse_bin_v0.57.pdsl", "szse-bin": "szse_bin_v1.29.pdsl"}
